@@ -33,9 +33,5 @@ func init() {
 			probes: []string{"op_create_ok", "op_create-from_ok", "op_copy_ok", "op_delete_ok", "op_pull_ok", "op_restart_ok", "prune_exact", "two_models_coexist"}},
 		"C12": {level: "fault_enumeration", quickS: 60, thoroughS: 900,
 			probes: []string{"crashed_in_pull", "crashed_in_create", "crashed_in_create-from", "crashed_in_copy", "crashed_in_delete", "redo_ok", "converged"}},
-		// C09's main stage is the new registry client (harness "registry"); until that harness is merged
-		// the legacy push stage stands alone (see config_registry.go for the final wiring)
-		"C09": {level: "exploration", quickS: 30, thoroughS: 600,
-			probes: []string{"manifest_put", "push_success", "push_failed", "upload_redirected"}},
 	})
 }
